@@ -24,10 +24,25 @@ for d in sorted(glob.glob('seeded/*/meta.json')):
     if a.returncode!=0:
         row.update(result='patch does not apply: '+a.stderr.strip()[:100]); rows.append(row); continue
     try:
-        r=subprocess.run(['/verif/check',prop,'quick'],capture_output=True,text=True,env=dict(os.environ,GOVC_NOEVIDENCE='1'))
-        v=[l for l in r.stdout.splitlines() if l.startswith('VIOLATION')]
-        obl=[re.search(r'obligation=(\S+)',l).group(1) if 'obligation=' in l else 'outside-subset' for l in v]
-        row.update(result='caught' if r.returncode==1 and v else ('ENGINE-ERROR' if r.returncode==2 else 'missed'),obligations=obl[:3],rc=r.returncode)
+        def run(pr):
+            r=subprocess.run(['/verif/check',pr,'quick'],capture_output=True,text=True,env=dict(os.environ,GOVC_NOEVIDENCE='1'))
+            v=[l for l in r.stdout.splitlines() if l.startswith('VIOLATION')]
+            def name(l):
+                m=re.search(r'obligation=(\S+)',l)
+                if m: return m.group(1)
+                m=re.search(r'bounded case (\S+?):',l)
+                if m: return 'bounded:'+m.group(1)
+                if 'bounded harness' in l: return 'bounded-harness-cannot-run'
+                return 'outside-subset'
+            return r.returncode,[name(l) for l in v]
+        rc,obl=run(prop)
+        row.update(result='caught' if rc==1 and obl else ('ENGINE-ERROR' if rc==2 else 'missed'),obligations=obl[:3],rc=rc)
+        if row['result']=='missed':
+            for other in m.get('also_breaks',[]):
+                if other in claimed and other!=prop:
+                    rc2,obl2=run(other)
+                    if rc2==1 and obl2:
+                        row.update(result='missed by %s, caught by the %s check'%(prop,other),obligations=obl2[:3]); break
     finally:
         subprocess.run(['git','-C','/repo','apply','-R',os.path.abspath(p)])
     rows.append(row); print(sid,row['result'],row.get('obligations',''),flush=True)
@@ -35,4 +50,4 @@ json.dump(rows,open('seeded/MATRIX.json','w'),indent=1)
 with open('seeded/MATRIX.md','w') as f:
     f.write('| seed | property | result | first failing obligations |\n|---|---|---|---|\n')
     for r in rows: f.write('| %s | %s | %s | %s |\n'%(r['seed'],r['property'],r['result'],', '.join('`%s`'%o for o in r.get('obligations',[]))))
-c=sum(1 for r in rows if r['result']=='caught'); print('caught',c,'of',len(rows))
+c=sum(1 for r in rows if r['result']=='caught'); c2=sum(1 for r in rows if 'caught by the' in r['result']); print('caught',c,'(+%d by another property\'s check) of'%c2,len(rows))
